@@ -121,3 +121,94 @@ pub fn kind_case(case: &J) -> J {
         Err(p) => json!({"e": "panic", "where": "kind-op", "id": 0, "message": panic_message(&p), "case": case}),
     }
 }
+
+// ---------------------------------------------------------------------------------------------
+// C20: path syntax
+
+fn chars_json(s: &str) -> J {
+    J::Array(s.chars().map(|c| json!(c.to_string())).collect())
+}
+
+fn chars_to_string(j: &J) -> String {
+    j.as_array().map(|a| a.iter().filter_map(|c| c.as_str()).collect::<String>()).unwrap_or_default()
+}
+
+fn segs_json(p: &vrl::path::OwnedValuePath) -> J {
+    J::Array(
+        p.segments
+            .iter()
+            .map(|s| match s {
+                vrl::path::OwnedSegment::Field(f) => json!({"fc": chars_json(f.as_str())}),
+                vrl::path::OwnedSegment::Index(i) => json!({"i": i}),
+            })
+            .collect(),
+    )
+}
+
+fn parsed_value(r: Result<vrl::path::OwnedValuePath, vrl::path::PathParseError>) -> J {
+    match r {
+        Ok(p) => json!({"ok": true, "p": segs_json(&p)}),
+        Err(_) => json!({"ok": false, "p": []}),
+    }
+}
+
+fn parsed_target(r: Result<OwnedTargetPath, vrl::path::PathParseError>) -> J {
+    match r {
+        Ok(p) => json!({"ok": true, "pre": enc::prefix_str(p.prefix), "p": segs_json(&p.path)}),
+        Err(_) => json!({"ok": false, "pre": "none", "p": []}),
+    }
+}
+
+pub fn path_case(case: &J) -> J {
+    use vrl::path::{OwnedValuePath, parse_target_path, parse_value_path};
+    let r = catch_unwind(AssertUnwindSafe(|| {
+        if case["kind"] == "path" {
+            let mut p = OwnedValuePath::root();
+            for s in case["p"].as_array().into_iter().flatten() {
+                if let Some(fc) = s.get("fc") {
+                    p.push_field(&chars_to_string(fc));
+                } else {
+                    p.push_index(s["i"].as_i64().unwrap() as isize);
+                }
+            }
+            let text = String::from(&p);
+            let parsed = parsed_value(parse_value_path(&text));
+            let serde_v = parsed_value(OwnedValuePath::try_from(text.clone()));
+            let mut tgt = vec![];
+            for prefix in [PathPrefix::Event, PathPrefix::Metadata] {
+                let tp = OwnedTargetPath { prefix, path: p.clone() };
+                let ttext = tp.to_string();
+                tgt.push(json!({"pre": enc::prefix_str(prefix), "text": chars_json(&ttext),
+                                "parsed": parsed_target(parse_target_path(&ttext)),
+                                "serde": parsed_target(OwnedTargetPath::try_from(ttext.clone()))}));
+            }
+            json!({"e": "pathrt", "p": case["p"], "text": chars_json(&text), "parsed": parsed, "serde": serde_v, "tgt": tgt})
+        } else {
+            let text = chars_to_string(&case["t"]);
+            let value = parsed_value(parse_value_path(&text));
+            let target = parsed_target(parse_target_path(&text));
+            // the same text as a VRL query expression
+            let vrl = if text.starts_with('.') || text.starts_with('%') {
+                let fns = vrl::stdlib::all();
+                match vrl::compiler::compile(&text, &fns) {
+                    Ok(c) => {
+                        let q = &c.program.info().target_queries;
+                        if q.len() == 1 {
+                            json!({"ok": true, "pre": enc::prefix_str(q[0].prefix), "p": segs_json(&q[0].path)})
+                        } else {
+                            json!({"ok": false, "pre": "none", "p": [], "why": "not a single query"})
+                        }
+                    }
+                    Err(_) => json!({"ok": false, "pre": "none", "p": [], "why": "rejected"}),
+                }
+            } else {
+                json!({"ok": false, "pre": "none", "p": [], "why": "not a path expression"})
+            };
+            json!({"e": "pathtext", "t": case["t"], "value": value, "target": target, "vrl": vrl})
+        }
+    }));
+    match r {
+        Ok(j) => j,
+        Err(p) => json!({"e": "panic", "where": "path-op", "id": 0, "message": panic_message(&p), "case": case}),
+    }
+}
